@@ -229,7 +229,7 @@ def check(prop, tier, replay, C):
     for sm in summaries:
         for k, v in sm["stats"].items():
             stats[k] = stats.get(k, 0) + v
-        samples += sm["samples"][:3]
+        samples += (sm.get("samples") or [])[:3]
         distinct += sm["distinct_nontrivial"]
     ev = {
         "property_id": prop, "tier": tier, "seed": seed, "level": P.get("level", "proof"),
